@@ -247,7 +247,7 @@ func judge(e *engine, log []Rec, res *Result, wedged, readersFinished bool, outs
 				where := s.where()
 				if s.g.Kids > 0 && x.Kind == "PARENT" {
 					where = "split-parent-with-unfinished-children"
-					if s.kidsDLQ > 0 {
+					if s.kidsDLQ > 0 || s.toDLQ {
 						where = "split-parent-with-children-pending-in-dead-queue"
 					}
 				}
